@@ -1037,10 +1037,10 @@ def step (w : World) (line : String) : World × String :=
       match w.getT sid with
       | some t =>
         let out := Session.bobRun (Session.tableActor ns now failFrom) (fun _ => accept) items e { t := t }
-        let res := match out.result with
+        let res := (match out.result with
           | .ok n => "ok " ++ n.toHex
           | .aborted n r => "aborted " ++ n.toHex ++ " " ++ toString r
-          | .failed => "failed"
+          | .failed => "failed") ++ ",names=" ++ (match out.nsAtExit with | some n => n.toHex | none => "none")
         (w.setT sid out.store.t,
           "result=" ++ res ++ " written=" ++ SessTok.showWritten out.written ++ " outcome=" ++
           (match out.progress with | some o => SessTok.showOutcome o | none => "unavailable"))
